@@ -1528,4 +1528,8 @@ theorem greedy_all_false {chk : Bytes → Bytes → Bool} : ∀ (ks ss : List By
       simp only [greedy, h s List.mem_cons_self k, Bool.false_eq_true, if_false]
       exact ih (s :: ss) hne h
 
+/-- the interpreter context of input `i` of `tx` (what `VerifyScript(…, txTo, inIdx)` evaluates in) -/
+def txCtx (hashes : Hashes) (ecdsa : Bytes → Bytes → Bytes → Bool) (tx : Tx) (i : Nat) : Ctx :=
+  { env := txEnv hashes ecdsa tx i, inIdx := i, nVin := tx.vin.length, nVout := tx.vout.length }
+
 end BtcVerif.C05T
